@@ -1,4 +1,5 @@
 import GoSSE.Proofs.ClientConnect
+import GoSSE.Proofs.GenEquivBackoff
 /-!
 # C12 — the retry schedule follows the Backoff configuration
 
@@ -301,5 +302,50 @@ example :
      (mergeDefaults FV.ops ⟨500, .rat 3 2, .rat 1 2, 0, 0, 0⟩ ⟨7, .rat 1 1, .rat 3 2, 0, 0, 0⟩).jitter,
      (mergeDefaults FV.ops ⟨500, .rat 3 2, .rat 1 2, 0, 0, 0⟩ ⟨0, .rat 1 2, .rat 0 1, 0, 0, 0⟩).initialInterval)
     = (.rat (-1) 1, .rat 1 2, 500) := by decide
+
+/-! ### The translated source text (regenerated from /repo's client.go on every run) -/
+
+/-- **`backoffController.next` as translated from client.go** (with `nextInterval` and `growInterval`) is one step of the
+model's controller. In the translated text `float64` is an abstract carrier with the operations the Go code performs
+(`fo`; nothing is assumed of them, so this holds for IEEE arithmetic as for exact arithmetic), the generator is the
+list of its coming draws and the clock reading of the call is a parameter; `GenEquiv.floatsOf` spells the model's three
+float computations out of `fo`, the configuration's `Multiplier` / `Jitter` and the draw at hand. For **every**
+configuration, controller state, draw and clock reading, `next` returns `(wait, true)` / `(0, false)` exactly as
+`Ctl.next` answers `some wait` / `none`, leaves the model's `start`, `interval`, `numRetries`, consumes the draw exactly
+when the retry limit does not refuse and jitter is on, and does not panic. The schedule theorems above (`schedule`,
+`base_sequence`, `retries_bounded`, `max_elapsed_respected`, …) are therefore statements about the text of client.go's
+controller (the `Connect` loop around it stays with the hand model and the CONN correspondence). -/
+theorem translated_next_is_model {φ : Type} (fo : GoRT.FloatI φ) (fuel : Nat) (c : Gen.backoffController φ) (b : Gen.Backoff φ)
+    (hb : c.b = some b) (d : φ) (rest : List φ) (hr : c.rng = d :: rest) (now : Int) :
+    Gen.backoffController_next fo fuel c now =
+      .ok (GenEquiv.nextRes c (Ctl.next (GenEquiv.cfgOf fo b) (GenEquiv.floatsOf fo b d) (GenEquiv.ctlOf c) now 0)
+        (if GenEquiv.refused (GenEquiv.cfgOf fo b) (GenEquiv.ctlOf c) || (GenEquiv.cfgOf fo b).jitterOff then c.rng else rest)) :=
+  GenEquiv.next_eq fo fuel c b hb d rest hr now
+
+/-- … and with `Jitter == -1` no draw is needed, whatever the generator holds -/
+theorem translated_next_is_model_jitter_off {φ : Type} (fo : GoRT.FloatI φ) (fuel : Nat) (c : Gen.backoffController φ)
+    (b : Gen.Backoff φ) (hb : c.b = some b) (d : φ) (hoff : (GenEquiv.cfgOf fo b).jitterOff = true) (now : Int) :
+    Gen.backoffController_next fo fuel c now =
+      .ok (GenEquiv.nextRes c (Ctl.next (GenEquiv.cfgOf fo b) (GenEquiv.floatsOf fo b d) (GenEquiv.ctlOf c) now 0) c.rng) :=
+  GenEquiv.next_eq_off fo fuel c b hb d hoff now
+
+/-- **`backoffController.reset` as translated** is `Ctl.reset` at the clock reading of the call (a positive server
+`retry` value becomes the interval, anything else restores `InitialInterval`; the retry count starts again) -/
+theorem translated_reset_is_model {φ : Type} (fo : GoRT.FloatI φ) (fuel : Nat) (c : Gen.backoffController φ) (b : Gen.Backoff φ)
+    (hb : c.b = some b) (newInterval now : Int) :
+    Gen.backoffController_reset fo fuel c newInterval now =
+      .ok (GenEquiv.withCtl c (Ctl.reset (GenEquiv.cfgOf fo b) (GenEquiv.ctlOf c) newInterval now) c.rng) :=
+  GenEquiv.reset_eq fo fuel c b hb newInterval now
+
+/-- non-vacuity: integers as the float carrier, `Multiplier` 2, `Jitter` −1, `MaxInterval` 15, at most 3 retries: a step
+from interval 5 waits 5 and doubles the interval; from 10 the interval is capped; the fourth `next` refuses -/
+example :
+    let fo : GoRT.FloatI Int := ⟨fun n _ => n, id, id, (· + ·), (· - ·), (· * ·), (· / ·), fun a b => decide (a < b), fun a b => decide (a ≤ b), fun a b => a == b⟩
+    let b : Gen.Backoff Int := ⟨5, 2, -1, 15, 0, 3⟩
+    (Gen.backoffController_next fo 1 ⟨0, [], some b, 5, 0⟩ 7).map (fun r => (r.1, r.2.1, r.2.2.interval, r.2.2.numRetries)) = .ok (5, true, 10, 1) ∧
+    (Gen.backoffController_next fo 1 ⟨0, [], some b, 10, 1⟩ 7).map (fun r => (r.1, r.2.1, r.2.2.interval, r.2.2.numRetries)) = .ok (10, true, 15, 2) ∧
+    (Gen.backoffController_next fo 1 ⟨0, [], some b, 15, 3⟩ 7).map (fun r => (r.1, r.2.1, r.2.2.interval, r.2.2.numRetries)) = .ok (0, false, 15, 3) := by
+  intro fo b
+  exact ⟨rfl, rfl, rfl⟩
 
 end GoSSE.Props.C12
